@@ -1,16 +1,178 @@
 (* C42: the regenerated NOTE_FREQ table against 440 * 2^((i-33)/12).
-   This is the ONLY file of C42 that uses real numbers: the 84 inequalities are discharged by the `interval`
-   tactic (Coq-Interval), which brings the std-lib axioms of Coq.Reals / classical logic and the primitive
-   63-bit integers with their specification axioms (listed by Print Assumptions in props/C42.v). *)
-From Coq Require Import ZArith List Reals Lia Lra.
-From Interval Require Import Tactic.
+
+   |f - 440*2^(k/12)| <= 2^-40 * f   <=>   (f*(1-2^-40)/440)^12 <= 2^k <= (f*(1+2^-40)/440)^12
+   so each of the 84 entries is decided by ONE exact integer comparison (`freq_ok`, numbers of ~1100 bits, by
+   vm_compute) and a general soundness lemma (`freq_ok_sound`) carries it to the real-number statement with
+   Rpower.  This is the only file of C42 that mentions real numbers: the theorems here depend on the three
+   axioms of Coq's standard real numbers (reported by Print Assumptions in props/C42.v) and on nothing else.
+   (proofs/Play_freq_interval.v proves the same 84 inequalities with the `interval` tactic as a cross-check; it
+   is not part of the closure of props/C42.v because `coqchk` on the Interval/Flocq/Coquelicot libraries takes
+   longer than the thorough tier allows.) *)
+From Coq Require Import ZArith List Reals Lia Lra Bool.
 From PCB Require Import gen.Gen_play.
 Import ListNotations.
+
+(* ---------- the integer criterion (no real numbers, no axioms) ---------- *)
+Open Scope Z_scope.
+
+Definition freq_ok (i : nat) (p : Z * positive) : bool :=
+  let n := fst p in
+  let d := Zpos (snd p) in
+  let A := (n * (2 ^ 40 - 1)) ^ 12 in
+  let B := (d * 2 ^ 40 * 440) ^ 12 in
+  let C := (n * (2 ^ 40 + 1)) ^ 12 in
+  (0 <? n) &&
+  (if (33 <=? i)%nat
+   then let t := 2 ^ Z.of_nat (i - 33) in (A <=? B * t) && (B * t <=? C)
+   else let t := 2 ^ Z.of_nat (33 - i) in (A * t <=? B) && (B <=? C * t)).
+
+Fixpoint freq_ok_from (i : nat) (t : list (Z * positive)) : bool :=
+  match t with
+  | [] => true
+  | p :: r => freq_ok i p && freq_ok_from (S i) r
+  end.
+
+(* the whole regenerated table satisfies the criterion, and has 84 entries *)
+Lemma freq_table_ok : freq_ok_from 0 play_note_freq = true /\ length play_note_freq = 84%nat.
+Proof. vm_compute. split; reflexivity. Qed.
+
+Lemma freq_ok_from_nth t : forall i j d,
+  freq_ok_from i t = true -> (j < length t)%nat -> freq_ok (i + j) (nth j t d) = true.
+Proof.
+  induction t as [|p r IH]; intros i j d H Hj; simpl in Hj; [lia|].
+  simpl in H. apply andb_true_iff in H as [H1 H2].
+  destruct j as [|j]; simpl.
+  - rewrite Nat.add_0_r. exact H1.
+  - rewrite <- plus_n_Sm. apply (IH (S i) j d H2). lia.
+Qed.
+
+(* ---------- soundness of the criterion in R ---------- *)
 Open Scope R_scope.
 
+Lemma pow_lt_strict x y n : 0 <= x < y -> x ^ S n < y ^ S n.
+Proof.
+  intros [H0 H1]. induction n as [|n IH].
+  - simpl. lra.
+  - change (x ^ S (S n)) with (x * x ^ S n). change (y ^ S (S n)) with (y * y ^ S n).
+    apply Rmult_le_0_lt_compat; try assumption. apply pow_le. exact H0.
+Qed.
+
+Lemma pow12_le_inv x y : 0 <= x -> 0 <= y -> x ^ 12 <= y ^ 12 -> x <= y.
+Proof.
+  intros Hx Hy H. destruct (Rle_or_lt x y) as [L|L]; [exact L|].
+  exfalso. pose proof (pow_lt_strict y x 11 (conj Hy L)) as Hs. lra.
+Qed.
+
+Definition semitones (q : R) : R := Rpower 2 (q / 12).
+
+Lemma semitones_pos q : 0 < semitones q.
+Proof. unfold semitones, Rpower. apply exp_pos. Qed.
+
+Lemma semitones_pow12 q : semitones q ^ 12 = Rpower 2 q.
+Proof.
+  unfold semitones. rewrite <- Rpower_pow by (unfold Rpower; apply exp_pos).
+  rewrite Rpower_mult. f_equal. replace (INR 12) with 12 by (simpl; lra). field.
+Qed.
+
+Lemma INR_33 : INR 33 = 33.
+Proof. simpl. lra. Qed.
+
+Lemma semitones_up (i m : nat) : i = (33 + m)%nat -> semitones (IZR (Z.of_nat i) - 33) ^ 12 = 2 ^ m.
+Proof.
+  intros ->. rewrite semitones_pow12, <- INR_IZR_INZ, plus_INR, INR_33.
+  replace (33 + INR m - 33) with (INR m) by lra. apply Rpower_pow. lra.
+Qed.
+
+Lemma semitones_down (i m : nat) : (i + m)%nat = 33%nat -> semitones (IZR (Z.of_nat i) - 33) ^ 12 = / 2 ^ m.
+Proof.
+  intros H. rewrite semitones_pow12, <- INR_IZR_INZ.
+  assert (E : INR i + INR m = 33) by (rewrite <- plus_INR, H; exact INR_33).
+  replace (INR i - 33) with (- INR m) by lra.
+  rewrite Rpower_Ropp, Rpower_pow by lra. reflexivity.
+Qed.
+
+(* from the two product inequalities to the relative error bound *)
+Lemma bound_from_products N D r :
+  0 < N -> 0 < D ->
+  N * (2 ^ 40 - 1) <= D * 2 ^ 40 * 440 * r -> D * 2 ^ 40 * 440 * r <= N * (2 ^ 40 + 1) ->
+  Rabs (N / D - 440 * r) <= / 2 ^ 40 * (N / D).
+Proof.
+  intros HN HD H1 H2. set (u := N / D).
+  assert (EN : N = u * D) by (unfold u; field; lra).
+  assert (K1 : u * (2 ^ 40 - 1) <= 2 ^ 40 * 440 * r).
+  { apply Rmult_le_reg_l with D; [exact HD|]. rewrite EN in H1. lra. }
+  assert (K2 : 2 ^ 40 * 440 * r <= u * (2 ^ 40 + 1)).
+  { apply Rmult_le_reg_l with D; [exact HD|]. rewrite EN in H2. lra. }
+  apply Rabs_le. lra.
+Qed.
+
+Definition ratioR (p : Z * positive) : R := IZR (fst p) / IZR (Zpos (snd p)).
+
+Lemma IZR_pow12 z : IZR (z ^ 12) = IZR z ^ 12.
+Proof. change 12%Z with (Z.of_nat 12). rewrite <- pow_IZR. reflexivity. Qed.
+
+Lemma IZR_pow2 m : IZR (2 ^ Z.of_nat m) = 2 ^ m.
+Proof. rewrite <- pow_IZR. reflexivity. Qed.
+
+Lemma IZR_2_40 : IZR (2 ^ 40) = 2 ^ 40.
+Proof. change 40%Z with (Z.of_nat 40). rewrite <- pow_IZR. reflexivity. Qed.
+
+Lemma IZR_A n : IZR ((n * (2 ^ 40 - 1)) ^ 12) = (IZR n * (2 ^ 40 - 1)) ^ 12.
+Proof. rewrite IZR_pow12, mult_IZR, minus_IZR, IZR_2_40. reflexivity. Qed.
+
+Lemma IZR_B d : IZR ((d * 2 ^ 40 * 440) ^ 12) = (IZR d * 2 ^ 40 * 440) ^ 12.
+Proof. rewrite IZR_pow12, !mult_IZR, IZR_2_40. reflexivity. Qed.
+
+Lemma IZR_C n : IZR ((n * (2 ^ 40 + 1)) ^ 12) = (IZR n * (2 ^ 40 + 1)) ^ 12.
+Proof. rewrite IZR_pow12, mult_IZR, plus_IZR, IZR_2_40. reflexivity. Qed.
+
+Lemma freq_ok_sound (i : nat) (p : Z * positive) :
+  freq_ok i p = true ->
+  Rabs (ratioR p - 440 * Rpower 2 ((IZR (Z.of_nat i) - 33) / 12)) <= / 2 ^ 40 * ratioR p.
+Proof.
+  destruct p as [n d]. unfold freq_ok, ratioR. cbn [fst snd]. intros H.
+  apply andb_true_iff in H as [Hn H]. apply Z.ltb_lt in Hn.
+  set (N := IZR n). set (D := IZR (Z.pos d)).
+  assert (HN : 0 < N) by (apply IZR_lt; exact Hn).
+  assert (HD : 0 < D) by (apply IZR_lt; reflexivity).
+  fold (semitones (IZR (Z.of_nat i) - 33)). set (r := semitones (IZR (Z.of_nat i) - 33)).
+  assert (Hr : 0 < r) by apply semitones_pos.
+  assert (Hone : 1 < 2 ^ 40) by (apply Rlt_pow_R1; [lra|lia]).
+  assert (Ha : 0 <= N * (2 ^ 40 - 1)) by (apply Rmult_le_pos; lra).
+  assert (Hc : 0 <= N * (2 ^ 40 + 1)) by (apply Rmult_le_pos; lra).
+  assert (Hb : 0 <= D * 2 ^ 40 * 440 * r).
+  { apply Rmult_le_pos; [|lra]. apply Rmult_le_pos; [|lra]. apply Rmult_le_pos; lra. }
+  assert (T1 : 0 < 2 ^ (33 - i)) by (apply pow_lt; lra).
+  apply bound_from_products; try assumption.
+  - (* lower side *)
+    apply pow12_le_inv; [exact Ha|exact Hb|].
+    rewrite (Rpow_mult_distr _ r).
+    destruct (33 <=? i)%nat eqn:E.
+    + apply Nat.leb_le in E. apply andb_true_iff in H as [H1 _]. apply Z.leb_le in H1.
+      apply IZR_le in H1. rewrite mult_IZR, IZR_A, IZR_B, IZR_pow2 in H1.
+      unfold r. rewrite (semitones_up i (i - 33)) by (clear H1; lia). exact H1.
+    + apply Nat.leb_gt in E. apply andb_true_iff in H as [H1 _]. apply Z.leb_le in H1.
+      apply IZR_le in H1. rewrite mult_IZR, IZR_A, IZR_B, IZR_pow2 in H1.
+      unfold r. rewrite (semitones_down i (33 - i)) by (clear H1; lia).
+      apply Rmult_le_reg_r with (2 ^ (33 - i)); [exact T1|].
+      rewrite Rmult_assoc, Rinv_l, Rmult_1_r by (apply Rgt_not_eq; exact T1). exact H1.
+  - (* upper side *)
+    apply pow12_le_inv; [exact Hb|exact Hc|].
+    rewrite (Rpow_mult_distr _ r).
+    destruct (33 <=? i)%nat eqn:E.
+    + apply Nat.leb_le in E. apply andb_true_iff in H as [_ H2]. apply Z.leb_le in H2.
+      apply IZR_le in H2. rewrite mult_IZR, IZR_C, IZR_B, IZR_pow2 in H2.
+      unfold r. rewrite (semitones_up i (i - 33)) by (clear H2; lia). exact H2.
+    + apply Nat.leb_gt in E. apply andb_true_iff in H as [_ H2]. apply Z.leb_le in H2.
+      apply IZR_le in H2. rewrite mult_IZR, IZR_C, IZR_B, IZR_pow2 in H2.
+      unfold r. rewrite (semitones_down i (33 - i)) by (clear H2; lia).
+      apply Rmult_le_reg_r with (2 ^ (33 - i)); [exact T1|].
+      rewrite Rmult_assoc, Rinv_l, Rmult_1_r by (apply Rgt_not_eq; exact T1). exact H2.
+Qed.
+
+(* ---------- the table ---------- *)
 (* the exact binary64 value of NOTE_FREQ[i] *)
-Definition note_freq (i : nat) : R :=
-  let p := nth i play_note_freq (0%Z, 1%positive) in IZR (fst p) / IZR (Zpos (snd p)).
+Definition note_freq (i : nat) : R := ratioR (nth i play_note_freq (0%Z, 1%positive)).
 
 (* 12-tone equal temperament, A = 440 Hz at index 33 (octave 2, A) *)
 Definition ideal_freq (i : nat) : R := 440 * Rpower 2 ((IZR (Z.of_nat i) - 33) / 12).
@@ -18,16 +180,13 @@ Definition ideal_freq (i : nat) : R := 440 * Rpower 2 ((IZR (Z.of_nat i) - 33) /
 Theorem freq_table : forall i : nat, (i < 84)%nat ->
   Rabs (note_freq i - ideal_freq i) <= / 2 ^ 40 * note_freq i.
 Proof.
-  intros i Hi.
-  do 84 (destruct i as [|i];
-         [ unfold note_freq, ideal_freq;
-           cbv [nth play_note_freq fst snd Z.of_nat Pos.of_succ_nat Pos.succ];
-           unfold Rpower; interval with (i_prec 80) | ]).
-  lia.
+  intros i Hi. destruct freq_table_ok as [Hok Hlen].
+  unfold note_freq, ideal_freq. apply freq_ok_sound.
+  apply (freq_ok_from_nth play_note_freq 0 i). exact Hok. rewrite Hlen. exact Hi.
 Qed.
 
 Theorem freq_A440 : note_freq 33 = 440.
-Proof. unfold note_freq. cbv [nth play_note_freq fst snd]. lra. Qed.
+Proof. unfold note_freq, ratioR. cbv [nth play_note_freq fst snd]. lra. Qed.
 
 Lemma ideal_A440 : ideal_freq 33 = 440.
 Proof.
